@@ -56,6 +56,16 @@ impl Ctl {
         st.release.remove(thread);
     }
 
+    /// how often the thread has passed the point so far
+    pub fn hits(&self, thread: &str, point: &str) -> usize {
+        self.st
+            .lock()
+            .hits
+            .get(&(thread.to_string(), point.to_string()))
+            .copied()
+            .unwrap_or(0)
+    }
+
     /// Like `arm`, for the next time the thread passes the point (whatever happened before).
     pub fn arm_next(&self, thread: &str, point: &str) {
         let mut st = self.st.lock();
@@ -467,12 +477,23 @@ pub fn scenarios(rng: &mut StdRng, quick: bool) -> Vec<Scenario> {
             memtable: 4000,
         });
     }
+    // ... interrupted LATE: the worker is suspended in the merge loop after it has finished at
+    // least one output table and opened the next; the flush from inside the loop runs a deletion
+    // pass while finished, not yet installed outputs exist
+    out.push(Scenario {
+        name: "manual@compact_loop#late/rotate".to_string(),
+        victim: Victim::Get { k: 1 },
+        point: "compact_loop".to_string(),
+        nth: 1,
+        script: "manual_late".to_string(),
+        memtable: 4000,
+    });
     if quick {
         // keep all reader scenarios and a random half of the writer ones
         let n = out.len();
         let mut keep = vec![];
         for (i, s) in out.into_iter().enumerate() {
-            if i < 24 || rng.gen_bool(0.6) || i + 8 > n {
+            if i < 24 || rng.gen_bool(0.6) || i + 9 > n {
                 keep.push(s);
             }
         }
@@ -755,7 +776,15 @@ fn run_manual_rotate(sc: &Scenario, seed: u64, run_no: u64) -> SchedOutcome {
             let _ = round;
         }
     }
-    ctl.arm_next(BG, "compact_loop");
+    if sc.script == "manual_late" {
+        // (12 entries of about 200 bytes, 600-byte output files: the seventh pass through the
+        // loop comes after the second output was opened)
+        ctl.arm_next(BG, "compact_loop");
+        let seen = ctl.hits(BG, "compact_loop");
+        ctl.arm(BG, "compact_loop", seen + 7);
+    } else {
+        ctl.arm_next(BG, "compact_loop");
+    }
     let mut callers: Vec<(String, mpsc::Receiver<()>)> = vec![];
     let d2 = Arc::clone(&db);
     callers.push((
@@ -828,6 +857,9 @@ fn run_manual_rotate(sc: &Scenario, seed: u64, run_no: u64) -> SchedOutcome {
         sink.emit_json("Hang", json!({"what": "background work does not settle"}));
         status = "hang".into();
     }
+    if status == "ok" {
+        emit_quiet(&env, &db, &fs, &sink);
+    }
     for p in peek_panics() {
         sink.emit_json(
             "Panic",
@@ -856,6 +888,36 @@ fn run_manual_rotate(sc: &Scenario, seed: u64, run_no: u64) -> SchedOutcome {
         lines: sink.take(),
         parked,
         status,
+    }
+}
+
+/// One more flush (whose deletion pass also reclaims what an earlier pass had to leave to a
+/// racing reader), then the `Quiet` event: number of linked versions, tables of the current
+/// version, tables on disk.
+fn emit_quiet(env: &Arc<Env>, db: &Arc<DB>, fs: &SimFs, sink: &Arc<TraceSink>) {
+    env.put(1, 40);
+    let _ = db.verif_force_flush();
+    if let Some(d) = wait_quiescent(db, Duration::from_secs(60)) {
+        let cur: Vec<u64> = d.levels.iter().flat_map(|l| l.iter().map(|f| f.number)).collect();
+        let rootp = std::path::Path::new(ROOT);
+        let tables: Vec<i64> = fs
+            .disk()
+            .listing()
+            .iter()
+            .filter_map(|p| {
+                let (kind, n) = crate::simfs::classify(rootp, std::path::Path::new(p));
+                if kind == "table" {
+                    Some(n)
+                } else {
+                    None
+                }
+            })
+            .collect();
+        sink.emit_json(
+            "Quiet",
+            json!({"live": d.live_versions, "cur": cur, "tables": tables,
+                   "bad": d.bad_state.is_some()}),
+        );
     }
 }
 
@@ -1067,7 +1129,7 @@ pub fn run_scenario(sc: &Scenario, seed: u64, run_no: u64) -> SchedOutcome {
     if sc.script == "cold_open" {
         return run_cold_open(sc, seed, run_no);
     }
-    if sc.script == "manual_rotate" || sc.script == "manual_gap" {
+    if sc.script == "manual_rotate" || sc.script == "manual_gap" || sc.script == "manual_late" {
         return run_manual_rotate(sc, seed, run_no);
     }
     let u = Arc::new(Universe::plain(6));
@@ -1370,26 +1432,7 @@ pub fn run_scenario(sc: &Scenario, seed: u64, run_no: u64) -> SchedOutcome {
         // earlier pass had to leave to a racing reader) exactly ONE version is linked and only
         // its tables are on disk
         if sc.script == "flush_compact_readfault" || sc.script == "flush_compact" {
-            env.put(1, 40);
-            let _ = db.verif_force_flush();
-            if let Some(d) = wait_quiescent(&db, Duration::from_secs(60)) {
-                let cur: Vec<u64> = d.levels.iter().flat_map(|l| l.iter().map(|f| f.number)).collect();
-                let rootp = std::path::Path::new(ROOT);
-                let tables: Vec<i64> = fs
-                    .disk()
-                    .listing()
-                    .iter()
-                    .filter_map(|p| {
-                        let (kind, n) = crate::simfs::classify(rootp, std::path::Path::new(p));
-                        if kind == "table" { Some(n) } else { None }
-                    })
-                    .collect();
-                sink.emit_json(
-                    "Quiet",
-                    json!({"live": d.live_versions, "cur": cur, "tables": tables,
-                           "bad": d.bad_state.is_some()}),
-                );
-            }
+            emit_quiet(&env, &db, &fs, &sink);
         }
     }
     for p in peek_panics() {
@@ -1497,7 +1540,8 @@ pub fn cmd(m: &HashMap<String, String>) -> i32 {
             }
             // --match <text>: only the scenarios whose name contains the text
             if let Some(t) = m.get("match") {
-                if !sc.name.contains(t.as_str()) {
+                // (comma-separated alternatives)
+                if !t.split(',').any(|alt| sc.name.contains(alt)) {
                     continue;
                 }
             }
